@@ -400,7 +400,7 @@ def flatten_node(
         if "lineno" in node._attributes:
             acc.append(f"{prefix}/_pos={node.lineno}:{path[2:]}\n")
         fields = ast.iter_fields(node)
-        if isinstance(node, (ast.FunctionDef, ast.ClassDef)):
+        if isinstance(node, (ast.FunctionDef, ast.AsyncFunctionDef, ast.ClassDef)):
             # make `body` the last item of a `def` clause
             fields = iter(sorted(fields, key=lambda c: c[0] == "body"))
         for (i, (name, x)) in enumerate(fields):
